@@ -303,6 +303,7 @@ EXPORT char *_strtok_s_chk(char *restrict dest, rsize_t *restrict dmaxp,
      * need to continue the scan.
      */
     if (ptoken == NULL) {
+        *ptr = dest; /* at the terminator: later calls find no token either */
         *dmaxp = dlen;
         return (ptoken);
     }
@@ -357,6 +358,7 @@ EXPORT char *_strtok_s_chk(char *restrict dest, rsize_t *restrict dmaxp,
         dlen--;
     }
 
+    *ptr = dest; /* the last token ends at the terminator: continue from there */
     *dmaxp = dlen;
     return (ptoken);
 }
